@@ -198,11 +198,12 @@ func (c *ElasticIndexClient) doBulkIndex(requests []*eventIndexRequest, retryCou
 		}
 	}
 
+	// the response has been handled in full: a deadline that passed meanwhile is counted, but it is not a
+	// request-level error (returning it would re-send, and answer, the whole batch a second time)
 	select {
 	default:
 	case <-ctx.Done():
 		c.metrics.BulkTimeouts.Inc()
-		return ctx.Err()
 	}
 
 	return nil
